@@ -316,6 +316,11 @@ def run_case(case):
                 ok_, nv = P1._fresh_value(k, est.get_params(deep=True)[k], e["strs"], est, e["skip"])
                 ref = make()
                 ref.set_params(**{k: nv})
+                if K.is_est(nv):
+                    # an estimator-valued key: the reference is rebuilt through the constructor from what get_params reports, so that
+                    # anything the constructor derives from the estimator's class is derived from the NEW estimator
+                    from sklearn.base import clone as _clone
+                    ref = _clone(ref)
                 try:
                     fo = ("ok", fit_obs(ref, db, 0))
                 except Exception as ex:
